@@ -1048,6 +1048,56 @@ func c16(c *core.Ctx) {
 		det16(c, vm)
 	})
 
+	c.Clause("C16.7", "the jump-destination analysis is cached by the hash of the code that runs: every Contract.SetCallCode is given either the Keccak hash of the very code it installs, or the stored code hash of the account whose stored code it installs")
+	c.Run("code-hash-key", func() {
+		scc := c.Method(vm+".Contract", "SetCallCode")
+		kh := c.FuncObj("common/crypto.Keccak256Hash")
+		getHash := c.Method("chain/types.AccountAccessor", "GetCodeHash")
+		getCode := c.Method("chain/types.AccountAccessor", "GetCode")
+		n := 0
+		for _, site := range c.CallSites(scc) {
+			if isTestHelper(c, site.Caller) || core.RelPkg(site.Caller) != vm {
+				continue
+			}
+			n++
+			a := site.Instr.Common().Args
+			hash, code := a[len(a)-2], a[len(a)-1]
+			ok := false
+			hs, cs := core.Slice(hash), core.Slice(code)
+			// (a) hash = Keccak256Hash(code)
+			for v := range hs {
+				if call, isCall := v.(*ssa.Call); isCall && core.SameFamily(core.CalleeObj(call), kh) {
+					if arg := call.Call.Args[0]; arg == code || core.Derived(code)[arg] || core.Derived(arg)[code] || core.Slice(arg)[core.ResolveSpill(code)] && len(core.Slice(arg)) <= len(cs)+2 {
+						ok = true
+					}
+				}
+			}
+			// (b) hash = X.GetCodeHash() and code = X.GetCode() for one account value X
+			if !ok {
+				var hx, cx ssa.Value
+				for v := range hs {
+					if call, isCall := v.(*ssa.Call); isCall && core.SameFamily(core.CalleeObj(call), getHash) {
+						hx = call.Call.Value
+						if !call.Call.IsInvoke() && len(call.Call.Args) > 0 {
+							hx = call.Call.Args[0]
+						}
+					}
+				}
+				for v := range cs {
+					if call, isCall := v.(*ssa.Call); isCall && core.SameFamily(core.CalleeObj(call), getCode) {
+						cx = call.Call.Value
+						if !call.Call.IsInvoke() && len(call.Call.Args) > 0 {
+							cx = call.Call.Args[0]
+						}
+					}
+				}
+				ok = hx != nil && cx != nil && (hx == cx || core.Derived(hx)[cx] || core.Derived(cx)[hx] || sameExprF(hx, cx))
+			}
+			c.Check("SetCallCode(hash-of-installed-code)@"+shortFn(site.Caller), "value-flow", ok, site.Instr.Pos(), "in %s the code hash handed to SetCallCode identifies the code that is installed (Keccak of that code, or GetCodeHash/GetCode of one account)", shortFn(site.Caller))
+		}
+		c.Floor("SetCallCode-sites", n, 6)
+	})
+
 	c.NotDecidedf("termination and gas ≤ limit as arithmetic facts (that costs are positive, that the 63/64 forwarding and the refund never exceed what was deducted, absence of uint64 wrap-around in gas arithmetic)")
 	c.NotDecidedf("correctness of individual opcodes and gas functions (stack effects, memory bounds inside an operation, that an operation's declared stack requirement matches what it pops)")
 	c.NotDecidedf("precompile behaviour on odd inputs (panics inside bn256/modexp/json decoding); only their gas bracket and the closed set of state-writing precompiles are decided; setRewardValue writes storage without consulting readOnly and relies on the caller == RewardManager gate in run()")
